@@ -1,12 +1,15 @@
 -------------------------- MODULE KeyProofDepsGen --------------------------
 (* scenarios for the replay: the forgeries that exist without the guard, their controls, and the honest proof *)
 EXTENDS KeyProofDeps, Json
-MulForgery == zero = {} /\ lieN /\ lieB = {} /\ false = {<<"mulTie", 0>>}     \* free multipliers, everything else honest for the true factors
-Replayable == \/ MulForgery
-              \/ /\ zero \subseteq {<<"p", 0>>, <<"N", 0>>}
+WrapForgery == wrap /\ ~trap /\ zero = {} /\ ~lieN /\ lieB # {} /\ \A k \in lieB : false \cap BRels(k) = {<<"rootsValid", k>>}
+TrapForgery == trap /\ ~wrap /\ zero = {} /\ lieN /\ lieB = {} /\ false = {<<"pQNRel", 0>>}
+MulForgery == ~wrap /\ ~trap /\ zero = {} /\ lieN /\ lieB = {} /\ false = {<<"mulTie", 0>>}     \* free multipliers, everything else honest for the true factors
+Replayable == \/ MulForgery \/ WrapForgery \/ TrapForgery
+              \/ /\ ~wrap /\ ~trap
+                 /\ zero \subseteq {<<"p", 0>>, <<"N", 0>>}
                  /\ (lieN => false \cap NRels \subseteq {<<"pPprimeRel", 0>>, <<"pQNRel", 0>>})          \* the prover commits to unrelated primes
                  /\ (\A k \in lieB : false \cap BRels(k) = {<<"rootsValid", k>>})                       \* and to arbitrary "roots"
                  /\ (lieN => <<"p", 0>> \in zero) /\ (lieB # {} => <<"N", 0>> \in zero)                 \* (other lies cannot even be built by a prover)
-EmitK == Replayable => PrintT(<<"K", ToJson([zeroP |-> (<<"p", 0>> \in zero), zeroN |-> (<<"N", 0>> \in zero), lieN |-> lieN, lieB |-> lieB, mulFree |-> MulForgery,
+EmitK == Replayable => PrintT(<<"K", ToJson([zeroP |-> (<<"p", 0>> \in zero), zeroN |-> (<<"N", 0>> \in zero), lieN |-> lieN, lieB |-> lieB, mulFree |-> MulForgery, wrap |-> WrapForgery, trap |-> TrapForgery,
                                              accept |-> Accept])>>)
 =============================================================================
